@@ -247,8 +247,8 @@ PROPS["C03"] = {
 
 PROPS["C07"] = {
     "id": "C07",
-    "lean_modules": ["JT.Props.C07"],
-    "extractors": ["layouts", "paramtable"],
+    "lean_modules": ["JT.Props.C07", "JT.Props.C07Src"],
+    "extractors": ["layouts", "paramtable", "golean"],
     "functional_ops": ["rt"],
     "rule": ("for each of the ~33 two-way message types x protocol version (2011/2013/2019 where layouts differ) x active-safety dialect: in-domain values generated as Go structs (fixed-width strings without NUL, BCD times, GBK-encodable text incl. Chinese, count/length fields consistent, "
              "list lengths 0..max, every terminal-parameter id alone and in groups, zero-length strings), encoded with the library; oracle: Parse(body) succeeds, Encode gives the identical bytes, re-parse equals, value equals the generated one field by field; helper round trips (Bcd2Dec, Time2BCD/BCD2Time, GBK, String2FillingBytes). "
